@@ -46,21 +46,20 @@ Definition C07_full : Prop :=
     exists G, sql_eval gen_cfg gen_facts inputs t = Some G /\ cols G = cols F /\ Permutation (rows G) (rows F).
 
 (** what is proved: the same statement on the decidable domain [tree_dom] (C01's domain for the ordinary
-    steps; no LIMIT inside the tree) for every tree that sqlframe compiles at all ([compiles]) *)
-Definition compiles (inputs : list frame) (t : tree) : bool :=
-  match compile gen_cfg gen_facts (map cols inputs) t 0 with Some _ => true | None => false end.
-
+    steps; no LIMIT inside the tree).  sqlframe builds a query for every such tree ([compile_total]): no
+    combination of operands -- independent, common ancestor, shared set-operation result -- is excluded *)
 Theorem C07_partial :
   forall t inputs F, inputs_ok inputs ->
-    tree_dom gen_cfg gen_facts (map cols inputs) t = true -> compiles inputs t = true ->
+    tree_dom gen_cfg gen_facts (map cols inputs) t = true ->
     spark_eval inputs t = Some F ->
     exists G, sql_eval gen_cfg gen_facts inputs t = Some G /\ cols G = cols F /\ Permutation (rows G) (rows F).
-Proof.
-  intros t inputs F Hin Hd Hc Hs.
-  apply (sql_eval_correct gen_cfg gen_facts gen_cfg_ok gen_limit_ok gen_facts_ok inputs t F Hin Hd Hs).
-  unfold compiles in Hc. destruct (compile _ _ _ _ _); [discriminate | discriminate].
-Qed.
+Proof. exact (sql_eval_total_correct gen_cfg gen_facts gen_cfg_ok gen_limit_ok gen_facts_ok). Qed.
 Print Assumptions C07_partial.
+
+Theorem C07_compiler_total :
+  forall ins t u, leaves_ok ins t = true -> compile gen_cfg gen_facts ins t u <> None.
+Proof. intros ins t u H. exact (compile_total gen_cfg gen_facts ins t H u). Qed.
+Print Assumptions C07_compiler_total.
 
 (** the same for the WITH list of any DataFrame state the compiler reaches (any uuid counter) *)
 Theorem C07_with_list :
@@ -103,27 +102,24 @@ Definition ex_tree : tree :=
        (TSet (CUnionByName true) (TSet CIntersectAll (TOps [OWhere (EIsNull (ECol "a"))] (TIn 0)) (TIn 0)) (TIn 1))
        (TSet (CUnionByName true) (TOps [OSelect [(ECol "b", "b"%string); (ECol "a", "a"%string)]] (TIn 0)) (TIn 1))).
 Example C07_domain_nonempty :
-  tree_dom gen_cfg gen_facts (map cols ex_inputs) ex_tree = true /\ compiles ex_inputs ex_tree = true
+  tree_dom gen_cfg gen_facts (map cols ex_inputs) ex_tree = true
   /\ option_map cols (spark_eval ex_inputs ex_tree) = Some ["a"; "b"; "c"]%string.
 Proof. vm_compute. repeat split; reflexivity. Qed.
 
-(** * the full statement is false of the faithful model: when both operands derive from the same
-    set-operation result (same WITH list, same text, hence the same CTE name), _add_ctes_to_expression
-    calls .where on a Union node -- sqlframe raises where PySpark answers *)
-Theorem C07_refuted_1 :
-  exists t inputs F, inputs_ok inputs /\ spark_eval inputs t = Some F
-    /\ tree_dom gen_cfg gen_facts (map cols inputs) t = true
-    /\ sql_eval gen_cfg gen_facts inputs t = None.
-Proof.
-  exists (TSet CUnion (TSet CUnion (TIn 0) (TIn 1)) (TSet CUnion (TIn 0) (TIn 1))).
-  exists [mkFrame ["a"]%string [[VInt 1]]; mkFrame ["a"]%string [[VNull]]].
-  eexists. split; [|split; [vm_compute; reflexivity | split; vm_compute; reflexivity]].
-  intros fr [<-|[<-|[]]]; (split; [intros r [<-|[]]; reflexivity | repeat constructor; simpl; tauto]).
-Qed.
-Print Assumptions C07_refuted_1.
-
-Corollary C07_full_is_false : ~ C07_full.
-Proof.
-  intro H. destruct C07_refuted_1 as (t & inputs & F & Hin & Hs & _ & Hn).
-  destruct (H t inputs F Hin Hs) as (G & HG & _). congruence.
-Qed.
+(** * regression witness of a fixed defect (fa46d1a): both operands derive from the same set-operation result
+    (same WITH list, same text, hence the same CTE name).  _add_ctes_to_expression used to call .where on the
+    Union node (AttributeError); the colliding set-operation CTE is now filtered through a SELECT of its columns,
+    and the tree is inside the theorem: it compiles, is in the domain, and evaluates to Spark's bag *)
+Definition shared_tree : tree := TSet CUnion (TSet CUnion (TIn 0) (TIn 1)) (TSet CUnion (TIn 0) (TIn 1)).
+Definition shared_inputs : list frame := [mkFrame ["a"]%string [[VInt 1]]; mkFrame ["a"]%string [[VNull]]].
+Example C07_shared_set_operation_ancestor :
+  tree_dom gen_cfg gen_facts (map cols shared_inputs) shared_tree = true
+  /\ match sql_eval gen_cfg gen_facts shared_inputs shared_tree, spark_eval shared_inputs shared_tree with
+     | Some G, Some F => list_eqb String.eqb (cols G) (cols F) && bag_eqb (rows G) (rows F)
+                         && Nat.eqb (List.length (rows G)) 4
+     | _, _ => false
+     end = true
+  /\ existsb (fun p => match snd p with NSet _ _ _ (Some _) _ _ _ _ => true | _ => false end)
+             (match compile gen_cfg gen_facts (map cols shared_inputs) shared_tree 0 with
+              | Some (s, _) => q_ctes (query_of s) | None => [] end) = true.
+Proof. vm_compute. repeat split; reflexivity. Qed.
